@@ -1,15 +1,15 @@
 SPECIFICATION Spec
 CONSTANTS
   Constructs = {"pp", "pfe", "worker", "map", "gen"}
-  Ns = {0, 1, 2, 3, 4, 5}
-  Ks = {1, 2, 3}
-  FKinds = {"err", "panicErr", "skip", "eof", "excl", "panicW_EOF"}
+  Ns = {2, 3, 4}
+  Ks = {2, 3}
+  FKinds = {"err", "wrapped", "panicErr"}
   MaxFaults = 2
-  MaxFaultPos = 5
-  OptSet <- OptsCore
+  MaxFaultPos = 3
+  OptSet <- OptsNoExc
   Colls = {"default"}
-  CancelModes = {}
-  Depth = 9
+  CancelModes = {0, 1}
+  Depth = 5
   ExcludedConsulted = TRUE
   Mut = "none"
 INVARIANT Inv
